@@ -105,6 +105,7 @@ type Obl struct {
 	NoPre   bool     // skip skolemisation/instantiation pre-processing
 	SliceDepth int   // >0: depth-limited slicing of the hypotheses (stage 0)
 	Stage      string // which stage of the portfolio decided it
+	AltPC      []string // vacuity guards: the path condition before the guarded assumptions
 	Expect  string   // "unsat" (default, goal must be valid) or "sat" (vacuity guards)
 }
 
